@@ -116,3 +116,32 @@ pub fn registry_references_are_static() {
     let _ = (by_name as fn(&str) -> _, by_id as fn(u16) -> _, by_suite_id as fn(TlsCipherSuiteID) -> _, by_try_from as fn(&str) -> _);
     let _ = (trait_accessor as fn(&TlsClientHelloContents) -> _, dtls_trait_accessor as fn(&DTLSClientHello) -> _, inherent_accessor as fn(&TlsClientHelloContents) -> _, server_accessor as fn(&TlsServerHelloContents) -> _);
 }
+
+/// The serializers (feature `serialize`) hand out values too: every public `gen_*` function returns an `impl SerializeFn<W>` that borrows
+/// the value to write. They cannot be named, so the assertion is made on the call results; like every other public value they must be
+/// Send + Sync (a prepared serializer can be shared by threads that each write into their own buffer).
+#[cfg(feature = "serialize")]
+pub fn serializer_values_are_send_sync() {
+    fn ss<T: Send + Sync>(_t: &T) {}
+    type W = std::vec::Vec<u8>;
+    let random = [0u8; 32];
+    let exts: std::vec::Vec<TlsExtension> = std::vec::Vec::new();
+    let ch = TlsClientHelloContents::new(0x0303, &random, None, std::vec::Vec::new(), std::vec::Vec::new(), None);
+    let sh = TlsServerHelloContents::new(0x0303, &random, None, 0xc02f, 0, None);
+    let sh18 = TlsServerHelloV13Draft18Contents { version: TlsVersion::Tls13Draft18, random: &random, cipher: TlsCipherSuiteID(0x1301), ext: None };
+    let cke = TlsClientKeyExchangeContents::Unknown(&random);
+    let msg = TlsMessage::ChangeCipherSpec;
+    let rec = TlsPlaintext { hdr: TlsRecordHeader { record_type: TlsRecordType::ChangeCipherSpec, version: TlsVersion::Tls12, len: 1 }, msg: std::vec::Vec::new() };
+    let ext = TlsExtension::MaxFragmentLength(1);
+    ss(&gen_tls_extension::<W>(&ext));
+    ss(&gen_tls_extensions::<W>(&exts));
+    ss(&gen_tls_clienthello::<W>(&ch));
+    ss(&gen_tls_serverhello::<W>(&sh));
+    ss(&gen_tls_serverhellodraft18::<W>(&sh18));
+    ss(&gen_tls_clientkeyexchange::<W>(&cke));
+    ss(&gen_tls_hellorequest::<W>());
+    ss(&gen_tls_finished::<W>(&random));
+    ss(&gen_tls_changecipherspec::<W>());
+    ss(&gen_tls_message::<W>(&msg));
+    ss(&gen_tls_plaintext::<W>(&rec));
+}
